@@ -1,0 +1,286 @@
+//go:build verif
+
+// Contracts for property C10 (node-local part of the timed B-tree), checked by /verif (govc).
+// This file is only compiled with -tags verif; it adds no behaviour to the package.
+package tbtree
+
+// ---------------------------------------------------------------------------------------------------------------
+// Representation facts (type invariants) the node-local code relies on. They are written inline as `requires`
+// because a Go spec function cannot contain a quantifier:
+//
+//   leafWF(l):   l.t != nil  &&  forall k < len(l.values): l.values[k] != nil && len(l.values[k].timedValues) >= 1
+//   innerWF(n):  n.t != nil  &&  len(n.nodes) >= 1  &&  forall k < len(n.nodes): n.nodes[k] != nil
+//   lvWF(lv):    len(lv.timedValues) >= 1
+//
+// Established by: (*TBtree).readLeafNodeFrom / readInnerNodeFrom (t: t, one TimedValue per key), OpenWith
+// (root: &leafNode{t: t}), (*leafNode).insert / setTs (deep copy keeps the lengths), (*leafNode).updateOnInsert
+// (new leafValue with exactly one TimedValue; found keys only grow), split (sub-slices of values / nodes).
+
+func spec_lvWF(lv *leafValue) bool { return lv != nil && len(lv.timedValues) >= 1 }
+
+//@ func (*leafValue).timedValue
+//@   requires nonempty: len(lv.timedValues) >= 1
+//@   assigns nothing
+//@   inline
+
+//@ func (*leafValue).historyCount
+//@   assigns nothing
+//@   inline
+
+//@ func (*leafNode).indexOf
+//@   requires t: l.t != nil
+//@   requires vals: forall(k, 0, len(l.values), l.values[k] != nil)
+//@   ensures range: 0 <= index && index <= len(l.values)
+//@   ensures found: found ==> index < len(l.values)
+//@   ensures hit: found ==> bytes.Compare(l.values[index].key, key) == 0
+//@   ensures below: !found && index > 0 ==> bytes.Compare(l.values[index-1].key, key) < 0
+//@   ensures above: !found && index < len(l.values) ==> bytes.Compare(l.values[index].key, key) > 0
+//@   assigns nothing
+//@   loop 1 invariant range: 0 <= left && left <= right && right <= len(l.values)
+//@   loop 1 invariant below: left > 0 ==> bytes.Compare(l.values[left-1].key, key) < 0
+//@   loop 1 invariant above: right < len(l.values) ==> bytes.Compare(l.values[right].key, key) > 0
+//@   loop 1 invariant aboveAtExit: left == right && right < len(l.values) ==> bytes.Compare(l.values[left].key, key) > 0
+//@   loop 1 decreases right - left
+//@   pure
+
+// the position / found flag computed by indexOf, as terms usable in the contracts of get, getBetween, history
+func spec_leafIndex(l *leafNode, key []byte) int  { i, _ := l.indexOf(key); return i }
+func spec_leafFound(l *leafNode, key []byte) bool { _, f := l.indexOf(key); return f }
+
+//@ func (*leafValue).history
+//@   requires nonempty: len(lv.timedValues) >= 1
+//@   requires hc: lv.hCount <= 1<<40
+//@   requires hlog: hLog != nil
+//@   ensures lenlim: r2 == nil && limit >= 0 && uint64(limit) <= old(lv.hCount + uint64(len(lv.timedValues))) - offset ==> len(r0) == limit
+//@   ensures lenall: r2 == nil && (limit < 0 || uint64(limit) > old(lv.hCount + uint64(len(lv.timedValues))) - offset) ==> uint64(len(r0)) == old(lv.hCount + uint64(len(lv.timedValues))) - offset
+//@   ensures count: r2 == nil ==> r1 == old(lv.hCount + uint64(len(lv.timedValues))) && offset < r1
+//@   ensures nomore: offset == old(lv.hCount + uint64(len(lv.timedValues))) ==> r2 == ErrNoMoreEntries
+//@   ensures range: offset > old(lv.hCount + uint64(len(lv.timedValues))) ==> r2 == ErrOffsetOutOfRange
+//@   loop 1 invariant off: 0 <= tssOff && tssOff <= timedValuesLen
+//@   loop 1 invariant idx: 0 <= i && uint64(i) == initAt + uint64(tssOff)
+//@   loop 1 decreases timedValuesLen - tssOff
+//@   loop 2 invariant off: 0 <= tssOff && tssOff <= timedValuesLen
+//@   loop 3 invariant off: 0 <= tssOff && tssOff <= timedValuesLen
+//@   loop 3 invariant idx: 0 <= i
+//@   loop 3 invariant wf: appendable.spec_readerWF(r)
+//@   loop 3 decreases int(hc) - i
+//@   loop 3 assigns r, r.data
+//@   loop 3 decreases int(hc) - i
+
+// ---- interface node: contracts assumed at invoke sites (children of an inner node), checked for leafNode/innerNode ----
+// nodeRef (loads the node through the cache / from disk) is outside C10's node-local part: its methods are ASSUMED to
+// satisfy these contracts (in particular: they do not write in-memory nodes; cache bookkeeping is not modelled).
+
+//@ iface node.minKey
+//@   assigns nothing
+
+//@ iface node.ts
+//@   assigns nothing
+
+//@ iface node.findLeafNode
+//@   requires offset: offset >= 0
+//@   ensures hit: r3 == nil ==> r1 != nil && 0 <= r2 && r2 < len(r1.values)
+//@   assigns path, internal
+
+//@ func (*innerNode).indexOf
+//@   requires t: n.t != nil
+//@   requires kids: forall(k, 0, len(n.nodes), n.nodes[k] != nil)
+//@   ensures range: 0 <= r0 && (len(n.nodes) >= 1 ==> r0 < len(n.nodes))
+//@   assigns nothing
+//@   loop 1 invariant range: 0 <= left && right <= len(n.nodes) - 1 && (len(n.nodes) >= 1 ==> left <= right)
+//@   loop 1 decreases right - left
+
+//@ func (*leafNode).findLeafNode
+//@   requires t: l.t != nil
+//@   requires vals: forall(k, 0, len(l.values), l.values[k] != nil)
+//@   ensures hit: r3 == nil ==> r1 == l && 0 <= r2 && r2 < len(l.values)
+//@   ensures miss: r3 != nil ==> r3 == ErrKeyNotFound && r1 == nil
+//@   ensures path: r3 == nil ==> r0 == path
+//@   ensures ascHit: !descOrder && r3 == nil ==> ((len(neqKey) == 0 || bytes.Compare(l.values[r2].key, neqKey) > 0) && bytes.Compare(seekKey, l.values[r2].key) < 1) && forall(k, 0, r2, !((len(neqKey) == 0 || bytes.Compare(l.values[k].key, neqKey) > 0) && bytes.Compare(seekKey, l.values[k].key) < 1))
+//@   ensures ascMiss: !descOrder && r3 != nil ==> forall(k, 0, len(l.values), !((len(neqKey) == 0 || bytes.Compare(l.values[k].key, neqKey) > 0) && bytes.Compare(seekKey, l.values[k].key) < 1))
+//@   ensures descHit: descOrder && r3 == nil ==> ((len(neqKey) == 0 || bytes.Compare(l.values[r2].key, neqKey) < 0) && bytes.Compare(l.values[r2].key, seekKey) < 1) && forall(k, r2+1, len(l.values), !((len(neqKey) == 0 || bytes.Compare(l.values[k].key, neqKey) < 0) && bytes.Compare(l.values[k].key, seekKey) < 1))
+//@   ensures descMiss: descOrder && r3 != nil ==> forall(k, 0, len(l.values), !((len(neqKey) == 0 || bytes.Compare(l.values[k].key, neqKey) < 0) && bytes.Compare(l.values[k].key, seekKey) < 1))
+//@   assigns nothing
+//@   loop 1 invariant range: 0 <= i && i <= len(l.values)
+//@   loop 1 invariant skipped: forall(k, i, len(l.values), !((len(neqKey) == 0 || bytes.Compare(l.values[k].key, neqKey) < 0) && bytes.Compare(l.values[k].key, seekKey) < 1))
+//@   loop 1 decreases i
+//@   loop 2 invariant skipped: forall(k, 0, rangeindex+1, !((len(neqKey) == 0 || bytes.Compare(l.values[k].key, neqKey) > 0) && bytes.Compare(seekKey, l.values[k].key) < 1))
+
+//@ func (*innerNode).findLeafNode
+//@   requires t: n.t != nil
+//@   requires kids: forall(k, 0, len(n.nodes), n.nodes[k] != nil)
+//@   requires offset: offset >= 0
+//@   requires typing: !sameobj(path, n) && !sameobj(path, n.nodes)
+//@   ensures hit: r3 == nil ==> r1 != nil && 0 <= r2 && r2 < len(r1.values)
+//@   assigns path, internal
+//@   loop 1 invariant range: 0 <= i
+//@   loop 1 decreases len(n.nodes) - i
+//@   loop 2 invariant range: 0 <= i
+//@   loop 2 decreases len(n.nodes) - i
+
+//@ func (*leafNode).get
+//@   requires t: l.t != nil
+//@   requires vals: forall(k, 0, len(l.values), l.values[k] != nil && len(l.values[k].timedValues) >= 1)
+//@   ensures pos: r3 == nil ==> old(spec_leafFound(l, key) && 0 <= spec_leafIndex(l, key) && spec_leafIndex(l, key) < len(l.values) && bytes.Compare(l.values[spec_leafIndex(l, key)].key, key) == 0)
+//@   ensures hit: r3 == nil ==> r0 == old(l.values[spec_leafIndex(l, key)].timedValues[0].Value) && r1 == old(l.values[spec_leafIndex(l, key)].timedValues[0].Ts)
+//@   && r2 == old(l.values[spec_leafIndex(l, key)].hCount + uint64(len(l.values[spec_leafIndex(l, key)].timedValues)))
+//@   ensures missidx: r3 != nil ==> !old(spec_leafFound(l, key))
+//@   ensures miss: r3 != nil ==> r3 == ErrKeyNotFound && r0 == nil && r1 == 0 && r2 == 0
+//@   assigns nothing
+
+//@ func (*leafNode).getBetween
+//@   requires t: l.t != nil && l.t.hLog != nil
+//@   requires vals: forall(k, 0, len(l.values), l.values[k] != nil && len(l.values[k].timedValues) >= 1)
+//@   ensures miss: !old(spec_leafFound(l, key)) ==> r3 == ErrKeyNotFound
+//@   ensures args: old(spec_leafFound(l, key)) && initialTs > finalTs ==> r3 == ErrIllegalArguments
+
+// lastUpdateBetween, in-memory part: the first (= newest, index 0 is the newest version) in-memory version i with
+// Ts <= finalTs (finalTs == 0: no upper bound) decides the answer: it is returned with hc = historyCount - i when
+// Ts >= initialTs, otherwise the key has no version in the interval. The history log is read only when every in-memory
+// version is newer than finalTs. (With timedValues strictly descending by Ts - prepend-only-when-newer in
+// updateOnInsert - this is "the newest version with initialTs <= Ts <= finalTs".)
+//@ func (*leafValue).lastUpdateBetween
+//@   requires hlog: hLog != nil
+//@   ensures args: initialTs > finalTs ==> r3 == ErrIllegalArguments
+//@   ensures memidx: r3 == nil && !forall(j, 0, len(old(lv.timedValues)), finalTs != 0 && old(lv.timedValues[j].Ts) > finalTs) ==> 0 <= int(old(lv.hCount) + uint64(len(old(lv.timedValues))) - r2) && int(old(lv.hCount) + uint64(len(old(lv.timedValues))) - r2) < len(old(lv.timedValues))
+//@   ensures memts: r3 == nil && !forall(j, 0, len(old(lv.timedValues)), finalTs != 0 && old(lv.timedValues[j].Ts) > finalTs) ==> forall(i, 0, len(old(lv.timedValues)), r2 == old(lv.hCount) + uint64(len(old(lv.timedValues))) - uint64(i) ==> r1 == old(lv.timedValues[i].Ts))
+//@   ensures memval: r3 == nil && !forall(j, 0, len(old(lv.timedValues)), finalTs != 0 && old(lv.timedValues[j].Ts) > finalTs) ==> forall(i, 0, len(old(lv.timedValues)), r2 == old(lv.hCount) + uint64(len(old(lv.timedValues))) - uint64(i) ==> r0 == old(lv.timedValues[i].Value))
+//@   ensures memrange: r3 == nil && !forall(j, 0, len(old(lv.timedValues)), finalTs != 0 && old(lv.timedValues[j].Ts) > finalTs) ==> forall(i, 0, len(old(lv.timedValues)), r2 == old(lv.hCount) + uint64(len(old(lv.timedValues))) - uint64(i) ==> initialTs <= old(lv.timedValues[i].Ts) && (finalTs == 0 || old(lv.timedValues[i].Ts) <= finalTs))
+//@   ensures memfirst: r3 == nil && !forall(j, 0, len(old(lv.timedValues)), finalTs != 0 && old(lv.timedValues[j].Ts) > finalTs) ==> forall(i, 0, len(old(lv.timedValues)), r2 == old(lv.hCount) + uint64(len(old(lv.timedValues))) - uint64(i) ==> forall(j, 0, i, finalTs != 0 && old(lv.timedValues[j].Ts) > finalTs))
+//@   ensures memmiss: r3 != nil && initialTs <= finalTs && !forall(j, 0, len(old(lv.timedValues)), finalTs != 0 && old(lv.timedValues[j].Ts) > finalTs) ==> r3 == ErrKeyNotFound
+//@   loop 1 invariant skipped: forall(j, 0, rangeindex+1, finalTs != 0 && old(lv.timedValues[j].Ts) > finalTs)
+//@   loop 2 invariant skipped: forall(j, 0, len(old(lv.timedValues)), finalTs != 0 && old(lv.timedValues[j].Ts) > finalTs)
+//@   loop 2 decreases lv.hCount - i
+//@   loop 3 invariant skipped: forall(j, 0, len(old(lv.timedValues)), finalTs != 0 && old(lv.timedValues[j].Ts) > finalTs)
+//@   loop 3 invariant range: 0 <= j
+//@   loop 3 invariant wf: appendable.spec_readerWF(r)
+//@   loop 3 decreases int(hc) - j
+//@   loop 3 assigns r, r.data
+
+//@ func (*leafNode).history
+//@   requires t: l.t != nil && l.t.hLog != nil
+//@   requires vals: forall(k, 0, len(l.values), l.values[k] != nil && len(l.values[k].timedValues) >= 1 && l.values[k].hCount <= 1<<40)
+//@   ensures miss: !old(spec_leafFound(l, key)) ==> r2 == ErrKeyNotFound
+//@   ensures count: r2 == nil ==> old(spec_leafFound(l, key)) && r1 == old(l.values[spec_leafIndex(l, key)].hCount + uint64(len(l.values[spec_leafIndex(l, key)].timedValues))) && offset < r1
+//@   ensures lenlim: r2 == nil && limit >= 0 && uint64(limit) <= old(l.values[spec_leafIndex(l, key)].hCount + uint64(len(l.values[spec_leafIndex(l, key)].timedValues))) - offset ==> len(r0) == limit
+//@   ensures lenall: r2 == nil && (limit < 0 || uint64(limit) > old(l.values[spec_leafIndex(l, key)].hCount + uint64(len(l.values[spec_leafIndex(l, key)].timedValues))) - offset) ==> uint64(len(r0)) == old(l.values[spec_leafIndex(l, key)].hCount + uint64(len(l.values[spec_leafIndex(l, key)].timedValues))) - offset
+//@   ensures nomore: old(spec_leafFound(l, key)) && !(offset < old(l.values[spec_leafIndex(l, key)].hCount + uint64(len(l.values[spec_leafIndex(l, key)].timedValues)))) && !(offset > old(l.values[spec_leafIndex(l, key)].hCount + uint64(len(l.values[spec_leafIndex(l, key)].timedValues)))) ==> r2 == ErrNoMoreEntries
+//@   ensures range: old(spec_leafFound(l, key)) && offset > old(l.values[spec_leafIndex(l, key)].hCount + uint64(len(l.values[spec_leafIndex(l, key)].timedValues))) ==> r2 == ErrOffsetOutOfRange
+
+// ---- split ----------------------------------------------------------------------------------------------------------
+
+//@ func splitIndex
+//@   ensures halves: sz >= 2 ==> 1 <= r0 && r0 <= sz - 1
+//@   ensures small: 0 <= sz && sz <= 1 ==> r0 == sz
+//@   ensures ceil: sz >= 0 ==> r0 == sz - sz/2
+//@   pure
+
+//@ func requiredNodeSize
+//@   ensures leaf: 0 <= maxKeySize && maxKeySize <= 65535 && 0 <= maxValueSize && maxValueSize <= 65535 ==> r0 >= 31 + maxKeySize + maxValueSize
+//@   ensures inner: 0 <= maxKeySize && maxKeySize <= 65535 && 0 <= maxValueSize && maxValueSize <= 65535 ==> r0 >= 2*(29 + maxKeySize)
+//@   ensures exact: 0 <= maxKeySize && maxKeySize <= 65535 && 0 <= maxValueSize && maxValueSize <= 65535 ==> r0 == 31 + maxKeySize + maxValueSize || r0 == 2*(29 + maxKeySize)
+//@   pure
+
+//@ func (*leafNode).updateTs
+//@   requires vals: forall(k, 0, len(l.values), l.values[k] != nil && len(l.values[k].timedValues) >= 1)
+//@   ensures same: l.values == old(l.values) && l.t == old(l.t) && l.mut == old(l.mut)
+//@   assigns l
+//@   loop 1 invariant same: l.values == old(l.values) && l.t == old(l.t) && l.mut == old(l.mut)
+//@   loop 1 decreases len(l.values) - i
+
+//@ func (*leafNode).size
+//@   requires vals: forall(k, 0, len(l.values), l.values[k] != nil && len(l.values[k].timedValues) >= 1)
+//@   ensures ok: r1 == nil
+//@   ensures empty: len(l.values) == 0 ==> r0 == 3
+//@   ensures single: len(l.values) == 1 ==> r0 == 31 + len(l.values[0].key) + len(l.values[0].timedValues[0].Value)
+//@   assigns nothing
+//@   loop 1 invariant empty: rangeindex + 1 == 0 ==> size == 3
+//@   loop 1 invariant single: rangeindex + 1 == 1 ==> size == 31 + len(l.values[0].key) + len(l.values[0].timedValues[0].Value)
+
+// leafNode.split: result shape, slicing arithmetic, the first half keeps >= 1 entry. "Second half non-empty" is the
+// conjunction of three facts proved separately: splitIndex (sz >= 2 ==> 1 <= r <= sz-1), leafNode.size (one entry
+// has size 31+len(key)+len(value)) and the tree-level bound 31+len(key)+len(value) <= maxNodeSize (Options.Validate /
+// OpenWith: maxNodeSize >= requiredNodeSize(maxKeySize, maxValueSize); bulkInsert: len(K) <= maxKeySize,
+// len(V) <= maxValueSize); carrying that bound as a quantified `requires` through the two recursive calls does not
+// discharge (notes, limit 1), so it is not part of this contract. The !sameobj conjuncts are typing facts
+// (a *leafValue / []TimedValue never shares an object with a *leafNode) that the engine does not assume under forall.
+//@ func (*leafNode).split
+//@   requires t: l.t != nil
+//@   requires vals: forall(k, 0, len(l.values), l.values[k] != nil && len(l.values[k].timedValues) >= 1 && !sameobj(l.values[k], l) && !sameobj(l.values[k].timedValues, l))
+//@   ensures ok: r1 == nil
+//@   ensures nonempty: len(r0) >= 1
+//@   ensures kids: forall(k, 0, len(r0), r0[k] != nil)
+//@   ensures nothollow: old(len(l.values)) >= 1 ==> len(l.values) >= 1
+//@   ensures freshres: fresh(r0)
+//@   assigns l
+
+// ---- commit log entry ------------------------------------------------------------------------------------------------
+// deserialize(serialize(e)) == e for every entry whose sizes are representable: initialNLogSize >= 0 (its top bit
+// carries the async flag) and 0 <= rootNodeSize < 2^32 (stored in 4 bytes). isValid() does NOT imply the former:
+// see notes (negative initialNLogSize passes isValid).
+func verif_clog_roundtrip(synced bool, iN, fN int64, root int, nSum [32]byte, iH, fH int64, hSum [32]byte) {
+	verifAssume(iN >= 0 && 0 <= root && root < 1<<32)
+	e := &cLogEntry{synced: synced, initialNLogSize: iN, finalNLogSize: fN, rootNodeSize: root, nLogChecksum: nSum,
+		initialHLogSize: iH, finalHLogSize: fH, hLogChecksum: hSum}
+	b := e.serialize()
+	verifAssert("len", len(b) == cLogEntrySize)
+	d := &cLogEntry{}
+	d.deserialize(b)
+	verifAssert("synced", d.synced == synced)
+	verifAssert("initialNLogSize", d.initialNLogSize == iN)
+	verifAssert("finalNLogSize", d.finalNLogSize == fN)
+	verifAssert("rootNodeSize", d.rootNodeSize == root)
+	verifAssert("nLogChecksum", d.nLogChecksum == nSum)
+	verifAssert("initialHLogSize", d.initialHLogSize == iH)
+	verifAssert("finalHLogSize", d.finalHLogSize == fH)
+	verifAssert("hLogChecksum", d.hLogChecksum == hSum)
+}
+
+//@ func (*cLogEntry).serialize
+//@   ensures len: len(r0) == cLogEntrySize
+//@   assigns nothing
+//@   inline
+
+//@ func (*cLogEntry).isValid
+//@   ensures def: r0 == (e.initialNLogSize <= e.finalNLogSize && e.rootNodeSize > 0 && int64(e.rootNodeSize) <= e.finalNLogSize && e.initialHLogSize <= e.finalHLogSize)
+//@   assigns nothing
+
+//@ func (*innerNode).updateTs
+//@   requires kids: forall(k, 0, len(n.nodes), n.nodes[k] != nil)
+//@   ensures same: n.nodes == old(n.nodes) && n.t == old(n.t) && n.mut == old(n.mut)
+//@   assigns n
+//@   loop 1 invariant same: n.nodes == old(n.nodes) && n.t == old(n.t) && n.mut == old(n.mut)
+//@   loop 1 decreases len(n.nodes) - i
+
+//@ func (*innerNode).size
+//@   requires kids: forall(k, 0, len(n.nodes), n.nodes[k] != nil)
+//@   ensures ok: r1 == nil
+//@   assigns nothing
+
+// innerNode.split: safety of the slicing arithmetic and shape of the result. "Both halves non-empty" follows from
+// splitIndex's contract as soon as len(n.nodes) >= 2 at the division point; that in turn needs "two children always
+// fit" (maxNodeSize >= 2*(29+maxKeySize), requiredNodeSize) plus len(child.minKey()) <= maxKeySize, a fact about the
+// children that an interface contract cannot express (no access to self's tree): see notes.
+//@ func (*innerNode).split
+//@   requires t: n.t != nil
+//@   requires kids: forall(k, 0, len(n.nodes), n.nodes[k] != nil)
+//@   ensures ok: r1 == nil
+//@   ensures nonempty: len(r0) >= 1
+//@   ensures freshres: fresh(r0)
+//@   assigns n
+
+// ---- insertion into a (mutable) leaf ------------------------------------------------------------------------------------
+// Real callers: (*leafNode).insert (on l itself when l.mut, else on a deep copy) with kvts from bulkInsert (every
+// element non-nil, len(K) <= maxKeySize, len(V) <= maxValueSize).
+//@ func (*leafNode).updateOnInsert
+//@   requires t: l.t != nil
+//@   requires vals: forall(k, 0, len(l.values), l.values[k] != nil && len(l.values[k].timedValues) >= 1)
+//@   requires fits: forall(k, 0, len(l.values), 31 + len(l.values[k].key) + len(l.values[k].timedValues[0].Value) <= l.t.maxNodeSize)
+//@   requires kvts: forall(j, 0, len(kvts), kvts[j] != nil && 31 + len(kvts[j].K) + len(kvts[j].V) <= l.t.maxNodeSize)
+//@   requires sep: !sameobj(kvts, l)
+//@   ensures depth: r2 == nil ==> r1 == 1 && len(r0) >= 1
+//@   loop 1 invariant t: l.t == old(l.t)
+//@   loop 1 invariant vals: forall(k, 0, len(l.values), l.values[k] != nil && len(l.values[k].timedValues) >= 1)
+//@   loop 1 invariant fits: forall(k, 0, len(l.values), 31 + len(l.values[k].key) + len(l.values[k].timedValues[0].Value) <= l.t.maxNodeSize)
+//@   loop 1 invariant kvts: forall(j, 0, len(kvts), kvts[j] != nil && 31 + len(kvts[j].K) + len(kvts[j].V) <= l.t.maxNodeSize)
+//@   loop 1 assigns l
